@@ -156,20 +156,26 @@ def add_flops(rng, d, insts, extra_pins, dp="d", qp="q", rp="rst", qnp="qn"):
     return d
 
 
-def gen_seq(rng, tier, ports=None, ign_form=None):
+def gen_seq(rng, tier, ports=None, ign_form=None, fam=None):
     n_in = rng.randint(1, 2)
     d = base(rng, n_in, rng.randint(1, 5), p_const=0.08)
     k = rng.choice([1, 1, 2, 2, 3])
     extra = rng.random() < 0.25
     dp, qp = "d", "q"
     insts = [f"ff{i}" for i in range(k)]
-    if rng.random() < 0.4:
+    if fam is None and rng.random() < 0.4:
         # instance names where one extends the other by "_" + a character between the port initials, upper/lower-case ports
-        fam = list(rng.choice(NAME_FAMILIES))
+        fam_ = list(rng.choice(NAME_FAMILIES))
         dp, qp = rng.choice([("D", "Q"), ("d", "q")])
-        insts = fam + (["ff2"] if rng.random() < 0.3 else [])
+        insts = fam_ + (["ff2"] if rng.random() < 0.3 else [])
         rng.shuffle(insts)
         k = len(insts)
+    if fam:
+        # forced: a name family whose sorted D names and sorted Q names are in opposite instance order
+        insts, (dp, qp) = list(fam[0]), fam[1]
+        rng.shuffle(insts)
+        k = len(insts)
+        extra = False
     # extra pin names that CONTAIN the one-letter D / Q port name (a str ignore_pins must not be read as a set of characters)
     if ports:
         dp, qp = ports
@@ -190,7 +196,7 @@ def gen_seq(rng, tier, ports=None, ign_form=None):
     if ign_form:
         ign = {"str-r": rp, "str-qn": qnp, "list": [rp, qnp], "none": None}[ign_form]
     gated = False
-    if rng.random() < 0.22:
+    if fam is None and rng.random() < 0.22:
         # C09-F4: an ordinary net that carries the name <inst>_clk (a gated clock that is also observed); with `clk` ignored it must
         # survive, without it the flattened pin name clashes and the call is rejected
         inst = rng.choice(d["bbs"])[0]
@@ -208,12 +214,12 @@ def gen_seq(rng, tier, ports=None, ign_form=None):
     if iv == "dict":
         insts_ = [b[0] for b in d["bbs"]]
         iv = {b: rng.choice(["0", "1", "1", "0", "x"]) for b in rng.sample(insts_, rng.randint(1, len(insts_)))}
-    ru = rng.random() < 0.6 or "prefix-names" in kind
+    ru = rng.random() < 0.6 or "prefix-names" in kind or bool(fam)
     # clk / rst only drive flop pins: with remove_unloaded they do not become per-step inputs
     ins = [n[0] for n in d["nodes"] if n[1] == "input" and not (ru and (n[0] == "rst" or n[0] == "clk" and not gated))]
     hi = 3 if tier == "quick" else 4
     ns = [n for n in range(1, hi + 1) if k + n * len(ins) <= MAX_FREE[tier]]
-    if "prefix-names" in kind and [n for n in ns if n >= 2]:
+    if ("prefix-names" in kind or fam) and [n for n in ns if n >= 2]:
         ns = [n for n in ns if n >= 2]
     n = rng.choice(ns) if ns else 1
     n2 = 1 if n > 1 else (2 if 2 in ns else 1)          # the second call on the same object stays inside the enumeration budget
@@ -229,6 +235,20 @@ def gen_seq_str_ign(rng, tier):
     for ports, form in ((("D", "Q"), "str-r"), (("D", "Q"), "str-qn"), (("d", "q"), "str-qn"), (("d", "q"), "str-r")):
         c = gen_seq(rng, tier, ports, form)
         c["kind"] += ":one-letter-port-in-str" if form.startswith("str") else ""
+        out.append(c)
+    return out
+
+
+# (instances, ports): the character after "_" lies between the two port initials, so sorted(<inst>_<D>) and sorted(<inst>_<Q>) disagree
+FLIP_FAMILIES = [(("acc", "acc_HI"), ("D", "Q")), (("cnt", "cnt_LSB"), ("D", "Q")), (("r", "r_EN"), ("D", "Q")), (("cnt", "cnt_hi"), ("d", "q"))]
+
+
+def gen_seq_name_prefix(rng, tier):
+    """>= 2 flops from every name family above, n >= 2 whenever the budget allows (it does: <= 2 primary inputs, clk swept)"""
+    out = []
+    for fam in FLIP_FAMILIES:
+        c = gen_seq(rng, tier, fam=fam)
+        c["kind"] = "seq-name-prefix"
         out.append(c)
     return out
 
@@ -304,7 +324,7 @@ def gen_seq_dict_orders(rng, tier):
 
 
 def generate(rng, tier):
-    nu, na, ns, nf = (46, 1, 18, 1) if tier == "quick" else (170, 5, 80, 3)
+    nu, na, ns, nf = (46, 1, 16, 1) if tier == "quick" else (170, 5, 80, 3)
     sc = float(os.environ.get("VERIF_SCALE", "1"))      # <1 only for mutant trials on a loaded machine
     nu, na, ns, nf = max(8, int(nu * sc)), max(1, int(na * sc)), max(8, int(ns * sc)), max(1, int(nf * sc))
     out = [gen_unroll(rng, tier) for _ in range(nu)]
@@ -317,6 +337,7 @@ def generate(rng, tier):
         out += gen_seq_dict_orders(rng, tier)
         out += gen_seq_unloaded_q(rng, tier)
         out += gen_seq_str_ign(rng, tier)
+        out += gen_seq_name_prefix(rng, tier)
     # balance the Coq shards: the (heavy) sequential cases are spread evenly between the unroll cases
     seqs = [c for c in out if c["fn"] != "unroll"]
     unrs = [c for c in out if c["fn"] == "unroll"]
